@@ -186,4 +186,5 @@ def jobs(tier):
 
 
 def main(report, tier):
-    return summarize(report, runner.run_tasks(jobs(tier)), 'C14')
+    from . import mbuild
+    return summarize(report, runner.run_tasks(jobs(tier) + mbuild.jobs(tier)), 'C14')
